@@ -4,6 +4,17 @@ import json, os
 ROOT = os.path.dirname(os.path.dirname(os.path.abspath(__file__)))
 
 CLAIMED = {
+ "C04": dict(
+   text="Coq theorem C04_ident_roundtrip: for every name, every backend quote character and whatever follows, the engine's "
+        "quoted-identifier lexer applied to the prepared identifier consumes exactly it and decodes exactly the name (induction "
+        "over the name), so a name can never close its own quotes. Tie to the code: at each of ~60 identifier positions of "
+        "query and schema statements the implementation's output must equal the plain-name rendering with the model's "
+        "prepared identifier substituted, and the extracted engine tokenizer must see the same token stream as for the plain "
+        "name with only the decoded identifier changed.",
+   note="Trusted: Coq kernel; identifier lexers and statement tokenizers in coq/Spec (from the engine manuals); extraction, driver, "
+        "harness position list (harness/src/ident.rs), generators. The structural fact 'every position goes through Iden::prepare' "
+        "is checked by the substitution correspondence, not proved (no full renderer model at this level). Known finding F4b listed.",
+   technique="Coq proof (induction over names against the engine lexer) + substitution correspondence + engine-token differential oracle", ref="§6 C04"),
  "C03": dict(
    text="Coq theorems, for every string / char / byte string (NUL excluded exactly on Postgres and SQLite) and whatever text "
         "follows: the engine's string lexer (MySQL backslash escapes, Postgres '..'/E'..' incl. octal/hex/unicode escapes, "
